@@ -16,6 +16,7 @@ import (
 	"testing"
 	"time"
 
+	"github.com/olric-data/olric/internal/cluster/partitions"
 	"github.com/olric-data/olric/internal/kvstore/entry"
 	"github.com/olric-data/olric/internal/zzverif/vcommon"
 	"github.com/tidwall/redcon"
@@ -121,6 +122,7 @@ type c16Runner struct {
 	dead     bool
 	rebuilds int
 	noReset  bool
+	seedKeys []string
 }
 
 type c16Out struct {
@@ -209,8 +211,39 @@ func (r *c16Runner) run(args []string) bool {
 		r.col.Label("skipped-after-failure:"+name, 1)
 		return false
 	}
+	// every vector meets the member twice: without any DMap, and with DMap "d" holding a few keys (among them "k"
+	// and one in partition 0, the ones the well-formed prefixes name) - some handlers return early on an empty member
+	r.runOnce(args, name, false)
+	// (not DM.LOCK: on an occupied key it waits, as it should, for the deadline the vector itself names)
+	if !r.noReset && !r.hungCmds[name] && !r.dead && name != "dm.lock" {
+		r.runOnce(args, name, true)
+		r.col.Label("state:populated", 1)
+	}
+	return true
+}
+
+func (r *c16Runner) populate() {
+	P := uint64(r.opts.Partitions)
+	if r.seedKeys == nil {
+		r.seedKeys = []string{"k", "v", "x"}
+		for j := 0; j < 2000; j++ {
+			if cand := fmt.Sprintf("p0-%d", j); partitions.HKey("d", cand)%P == 0 {
+				r.seedKeys = append(r.seedKeys, cand)
+				break
+			}
+		}
+	}
+	for i, key := range r.seedKeys {
+		_ = r.m.db.dmap.VerifPutEntry("d", key, partitions.PRIMARY, []byte("v"), 0, int64(1000+i))
+	}
+}
+
+func (r *c16Runner) runOnce(args []string, name string, populated bool) {
 	if !r.noReset {
 		r.m.db.dmap.VerifResetDMaps()
+		if populated {
+			r.populate()
+		}
 	}
 	r.work <- args
 	timer := time.NewTimer(10 * time.Second)
@@ -223,7 +256,7 @@ func (r *c16Runner) run(args []string) bool {
 		r.hungCmds[name] = true
 		r.report("hang:"+name, args, "the handler of %q did not return within 10 s for %q", name, args)
 		r.startWorker() // the spinning goroutine cannot be stopped
-		return true
+		return
 	}
 	switch {
 	case out.panicVal != nil:
@@ -241,7 +274,6 @@ func (r *c16Runner) run(args []string) bool {
 	default:
 		r.col.Label("outcome:ok", 1)
 	}
-	return true
 }
 
 func (r *c16Runner) rebuild() {
